@@ -462,6 +462,9 @@ def verify_function(interp, contract: Contract, inst: Instance, prop_prefix=""):
         interp.no_contract.add(contract.qualname)
         if getattr(contract, "on_path_start", None):
             contract.on_path_start(interp, ctx)
+        # reductions carried by an element loop over a symbolic index space are specified by the contract
+        ctx.loop_folds = (lambda: contract.loop_folds(SpecCtx(interp, ctx, contract, mode="verify"), *pristine_args, **pristine_kwargs)) \
+            if getattr(contract, "loop_folds", None) else None
         try:
             if contract.body is not None:
                 got = run_outcome(lambda: contract.body(interp, ctx, args, kwargs))
@@ -543,6 +546,8 @@ def mark_inputs(ctx, args, kwargs):
         elif isinstance(v, SArr):
             v.owner = frozenset([f"param:{path}"])
         elif isinstance(v, Qty):
+            ctx.frozen_qty[id(v)] = path      # NumPy's in-place operators mutate a Quantity object itself
+            ctx.frozen_keep.append(v)
             walk(v.val, path)
         elif isinstance(v, STime):
             walk(v.sec, path)
